@@ -675,6 +675,9 @@ pub enum FV<const B: Word> {
 pub enum FReg {
     B2(FV<2>),
     B10(FV<10>),
+    // bases that are powers of the two above: base changes between them take the power-of-base shortcuts
+    B16(FV<16>),
+    B100(FV<100>),
 }
 macro_rules! fv_each {
     ($x:expr, $p:ident => $body:expr) => {
@@ -824,24 +827,32 @@ impl FReg {
         match self {
             FReg::B2(_) => 2,
             FReg::B10(_) => 10,
+            FReg::B16(_) => 16,
+            FReg::B100(_) => 100,
         }
     }
     fn enc(&self) -> Value {
         match self {
             FReg::B2(x) => x.enc(),
             FReg::B10(x) => x.enc(),
+            FReg::B16(x) => x.enc(),
+            FReg::B100(x) => x.enc(),
         }
     }
     fn tri(&self) -> Value {
         match self {
             FReg::B2(x) => x.tri(),
             FReg::B10(x) => x.tri(),
+            FReg::B16(x) => x.tri(),
+            FReg::B100(x) => x.tri(),
         }
     }
     fn eq(&self, o: &FReg) -> i64 {
         match (self, o) {
             (FReg::B2(x), FReg::B2(y)) => x.eq(y) as i64,
             (FReg::B10(x), FReg::B10(y)) => x.eq(y) as i64,
+            (FReg::B16(x), FReg::B16(y)) => x.eq(y) as i64,
+            (FReg::B100(x), FReg::B100(y)) => x.eq(y) as i64,
             _ => NA,
         }
     }
@@ -849,6 +860,8 @@ impl FReg {
         match (self, o) {
             (FReg::B2(x), FReg::B2(y)) => pord(x.pcmp(y)),
             (FReg::B10(x), FReg::B10(y)) => pord(x.pcmp(y)),
+            (FReg::B16(x), FReg::B16(y)) => pord(x.pcmp(y)),
+            (FReg::B100(x), FReg::B100(y)) => pord(x.pcmp(y)),
             _ => NA,
         }
     }
@@ -856,6 +869,8 @@ impl FReg {
         match (self, o) {
             (FReg::B2(x), FReg::B2(y)) => x.tcmp(y),
             (FReg::B10(x), FReg::B10(y)) => x.tcmp(y),
+            (FReg::B16(x), FReg::B16(y)) => x.tcmp(y),
+            (FReg::B100(x), FReg::B100(y)) => x.tcmp(y),
             _ => NA,
         }
     }
@@ -863,6 +878,8 @@ impl FReg {
         match self {
             FReg::B2(x) => x.twins().into_iter().map(FReg::B2).collect(),
             FReg::B10(x) => x.twins().into_iter().map(FReg::B10).collect(),
+            FReg::B16(x) => x.twins().into_iter().map(FReg::B16).collect(),
+            FReg::B100(x) => x.twins().into_iter().map(FReg::B100).collect(),
         }
     }
 }
@@ -879,6 +896,8 @@ macro_rules! freg_map {
         match $x {
             FReg::B2($v) => FReg::B2($body),
             FReg::B10($v) => FReg::B10($body),
+            FReg::B16($v) => FReg::B16($body),
+            FReg::B100($v) => FReg::B100($body),
         }
     };
 }
@@ -890,19 +909,24 @@ impl Pool for PoolF {
         let (op, d, a, b, n, f) = (st(s, "op"), us(s, "d"), us(s, "a"), us(s, "b"), s["n"].as_i64().unwrap_or(0), st(s, "f"));
         let r: FReg = match op {
             "const" => {
-                if s["c"]["base"].as_u64().unwrap_or(2) == 10 {
-                    FReg::B10(FV::<10>::from_wire(&s["c"]))
-                } else {
-                    FReg::B2(FV::<2>::from_wire(&s["c"]))
+                match s["c"]["base"].as_u64().unwrap_or(2) {
+                    10 => FReg::B10(FV::<10>::from_wire(&s["c"])),
+                    16 => FReg::B16(FV::<16>::from_wire(&s["c"])),
+                    100 => FReg::B100(FV::<100>::from_wire(&s["c"])),
+                    _ => FReg::B2(FV::<2>::from_wire(&s["c"])),
                 }
             }
             "add" | "sub" | "mul" | "div" => match (&self.regs[a - 1], &self.regs[b - 1]) {
                 (FReg::B2(x), FReg::B2(y)) => FReg::B2(FV::binary(op, f, x, y)),
                 (FReg::B10(x), FReg::B10(y)) => FReg::B10(FV::binary(op, f, x, y)),
+                (FReg::B16(x), FReg::B16(y)) => FReg::B16(FV::binary(op, f, x, y)),
+                (FReg::B100(x), FReg::B100(y)) => FReg::B100(FV::binary(op, f, x, y)),
                 // operands of different bases cannot be combined (a base change is a producer of its own:
                 // "withbase"); the operation then takes its left operand twice
-                (FReg::B2(x), FReg::B10(_)) => FReg::B2(FV::binary(op, f, x, x)),
-                (FReg::B10(x), FReg::B2(_)) => FReg::B10(FV::binary(op, f, x, x)),
+                (FReg::B2(x), _) => FReg::B2(FV::binary(op, f, x, x)),
+                (FReg::B10(x), _) => FReg::B10(FV::binary(op, f, x, x)),
+                (FReg::B16(x), _) => FReg::B16(FV::binary(op, f, x, x)),
+                (FReg::B100(x), _) => FReg::B100(FV::binary(op, f, x, x)),
             },
             "neg" => freg_map!(self.regs[a - 1].clone(), v => fv_map!(v, p => if f == "r" { -&p } else { -p })),
             "abs" => freg_map!(self.regs[a - 1].clone(), v => fv_map!(v, p => p.abs())),
@@ -914,10 +938,22 @@ impl Pool for PoolF {
             "withbase" => match self.regs[a - 1].clone() {
                 FReg::B2(v) => FReg::B10(fv_map!(v, p => p.with_base::<10>().value())),
                 FReg::B10(v) => FReg::B2(fv_map!(v, p => p.with_base::<2>().value())),
+                // down to the root of the base (exact: B is a power of the new base)
+                FReg::B16(v) => FReg::B2(fv_map!(v, p => p.with_base::<2>().value())),
+                FReg::B100(v) => FReg::B10(fv_map!(v, p => p.with_base::<10>().value())),
+            },
+            // up to a power of the base (2 -> 16, 10 -> 100), or across (16 -> 100 through the general path, 100 -> 16)
+            "upbase" => match self.regs[a - 1].clone() {
+                FReg::B2(v) => FReg::B16(fv_map!(v, p => p.with_base::<16>().value())),
+                FReg::B10(v) => FReg::B100(fv_map!(v, p => p.with_base::<100>().value())),
+                FReg::B16(v) => FReg::B100(fv_map!(v, p => p.with_base::<100>().value())),
+                FReg::B100(v) => FReg::B16(fv_map!(v, p => p.with_base::<16>().value())),
             },
             "withbaseprec" => match self.regs[a - 1].clone() {
                 FReg::B2(v) => FReg::B10(fv_map!(v, p => p.with_base_and_precision::<10>(n as usize).value())),
                 FReg::B10(v) => FReg::B2(fv_map!(v, p => p.with_base_and_precision::<2>(n as usize).value())),
+                FReg::B16(v) => FReg::B2(fv_map!(v, p => p.with_base_and_precision::<2>(n as usize).value())),
+                FReg::B100(v) => FReg::B10(fv_map!(v, p => p.with_base_and_precision::<10>(n as usize).value())),
             },
             "clone" => self.regs[a - 1].clone(),
             "clonefrom" => {
@@ -933,6 +969,10 @@ impl Pool for PoolF {
                     (FReg::B10(FV::U(x)), FReg::B10(FV::U(y))) => { x.clone_from(y); true }
                     (FReg::B10(FV::E(x)), FReg::B10(FV::E(y))) => { x.clone_from(y); true }
                     (FReg::B10(FV::A(x)), FReg::B10(FV::A(y))) => { x.clone_from(y); true }
+                    (FReg::B16(FV::Z(x)), FReg::B16(FV::Z(y))) => { x.clone_from(y); true }
+                    (FReg::B16(FV::A(x)), FReg::B16(FV::A(y))) => { x.clone_from(y); true }
+                    (FReg::B100(FV::Z(x)), FReg::B100(FV::Z(y))) => { x.clone_from(y); true }
+                    (FReg::B100(FV::A(x)), FReg::B100(FV::A(y))) => { x.clone_from(y); true }
                     _ => false,
                 };
                 if done { dst } else { src }
@@ -941,6 +981,10 @@ impl Pool for PoolF {
                 let i = dec_i(&s["c"]);
                 if f == "10" {
                     FReg::B10(FV::A(FBig::<mode::HalfAway, 10>::from(i)))
+                } else if f == "16" {
+                    FReg::B16(FV::E(FBig::<mode::HalfEven, 16>::from(i)))
+                } else if f == "100" {
+                    FReg::B100(FV::U(FBig::<mode::Up, 100>::from(i)))
                 } else {
                     FReg::B2(FV::Z(FBig::<mode::Zero, 2>::from(i)))
                 }
@@ -1164,6 +1208,27 @@ impl Pool for PoolQ {
             "fromint" => {
                 let i = dec_i(&s["c"]);
                 if f == "X" { QReg::X(Relaxed::from(i)) } else { QReg::R(RBig::from(i)) }
+            }
+            // the exact conversion of a finite float: c = {sig, exp, base}; f = "R" | "X" | "Rrepr" | "Xrepr"
+            "fromfloat" => {
+                let (sig, exp) = (dec_i(&s["c"]["sig"]), s["c"]["exp"].as_i64().unwrap_or(0) as isize);
+                macro_rules! conv {
+                    ($b:literal) => {{
+                        let x = FBig::<mode::Zero, $b>::from_parts(sig, exp);
+                        match f {
+                            "X" => QReg::X(Relaxed::try_from(x).unwrap()),
+                            "Xrepr" => QReg::X(Relaxed::try_from(x.into_repr()).unwrap()),
+                            "Rrepr" => QReg::R(RBig::try_from(x.into_repr()).unwrap()),
+                            _ => QReg::R(RBig::try_from(x).unwrap()),
+                        }
+                    }};
+                }
+                match s["c"]["base"].as_u64().unwrap_or(2) {
+                    10 => conv!(10),
+                    16 => conv!(16),
+                    6 => conv!(6),
+                    _ => conv!(2),
+                }
             }
             o => panic!("harness: unknown rational op {}", o),
         };
